@@ -123,6 +123,7 @@ def configs(tier):
     # three rotated modes: the re-ordering after rotation can be any of the 6 permutations (incl. the two 3-cycles)
     add("h_rotator", "EOFRotator|power1|n5p3k3", cls="EOF", power=1, n=5, p=3, k=3)
     add("h_rotator", "EOFRotator|power1|n5p3k3|second fit of the rotator object", cls="EOF", power=1, n=5, p=3, k=3, refit=True)
+    out[-1]["options"]["budget_s"] = 160 if tier == "quick" else 900  # 32 paths + the witness corpus: 120 s alone, more on a loaded machine (the corpus witnesses must be reached)
     add("h_cross_rotator", "MCARotator|power1", options={"full_rank": True})
     add("h_cross_rotator", "CPCCARotator|alpha=0.5|power1", options={"full_rank": True}, cls="CPCCA", alpha=0.5)
     add("h_cross_rotator", "MCARotator|power2", options={"full_rank": True}, power=2)  # the oblique branch (R^-H) of the cross-set rotators
